@@ -298,6 +298,10 @@ def cases(rng, tier):
             if r < 0.15: script = [0] * rng.choice([8, 64])
             elif r < 0.3: script = [255] * rng.choice([8, 64])
             out.append(dec_case(rng, ctx, p, O, f, tag, script=script, nontrivial=n >= 2))
+            # the refusal (and a slice of the ordinary cases) also in the release profile: a check demoted to a debug assertion
+            # disappears there
+            if refuses or rng.random() < 0.15:
+                out.append(dec_case(rng, ctx, p, O, f, tag + ':release', script=script, nontrivial=n >= 2, profile='release'))
         if n >= 2 and (kind != 'random' or rng.random() < 0.5):
             out.append(dec_case(rng, ctx, P_BIG, O, f, 'p>2^64:%s:deg%d' % (shape_tag(shape_mod_p(f, P_BIG), n), n)))
     # ---- CLI: the binary computes the maximal order itself; the model gets the same order as an input
